@@ -254,9 +254,9 @@ def _ctparse(
                     if new_s is not None:
                         new_s.score = scorer.score(txt, ts, new_s)
 
-                    if (
-                        new_s
-                        and stack_prod.get(new_s.prod, new_s.score - 1) < new_s.score
+                    if new_s and (
+                        new_s.prod not in stack_prod
+                        or stack_prod[new_s.prod] < new_s.score
                     ):
                         # either new_s.prod has never been produced
                         # before or the score of new_s is higher than
@@ -285,7 +285,7 @@ def _ctparse(
                         score_x = scorer.score_final(txt, ts, s, x)
                         # only emit productions not emitted before or
                         # productions emitted before but scored higher
-                        if parse_prod.get(x, score_x - 1) < score_x:
+                        if x not in parse_prod or parse_prod[x] < score_x:
                             parse_prod[x] = score_x
                             logger.debug(
                                 " => {}, score={:.2f}, ".format(x.__repr__(), score_x)
